@@ -107,6 +107,9 @@ def tables(draw, spec, max_rows=8, ragged=True, bad=True):
             if spreadsheet or True:
                 row[-1] = row[-1] or "h"
             rows.append(row)
+    if fmt.get("header", 0) and draw(st.integers(0, 9)) == 0:
+        # a data set that ends inside its header (fewer rows than the CID declares header rows): no data rows at all
+        return rows[: draw(st.integers(0, fmt["header"] - 1))]
     n_rows = draw(st.one_of(st.integers(0, max_rows), st.integers(min(3, max_rows), max_rows)))
     for _ in range(n_rows):
         row = []
